@@ -148,7 +148,7 @@ def api_correspondence(ctx, tg, tga):
         mtext.append("fp %s %d %d %s %d\n" % (cid, n, dt, qtok(zb), 1 if fpt in (1, 3) else 0))
     # --- kick tables with offsets up to far beyond the grid (defined conversions only in the std run)
     kicks = []
-    for i in range(15 if quick else 200):
+    for i in range(12 if quick else 200):
         n = rng.randint(4, 24)
         nb = rng.choice([1, 1, 2])
         it = rng.randint(1, 4)
@@ -163,13 +163,16 @@ def api_correspondence(ctx, tg, tga):
                 offs.append(f32(rng.uniform(n / 2 - 2, 3 * n)))
             else:
                 offs.append(f32(rng.choice([1e6, 3e9, 4.2e9, 1e12, 2.0 ** 31, 2.0 ** 32 - 300, -1e6, -5e9, -1e30])))
-        if i % 3 == 2:
-            # aimed at the case splits of the generated updateSM body (Proofs/UpdateSMGenP.v): integer part of n/2+offset
-            # exactly at the guard / stencil / table boundaries, negative beyond -n/2; odd and even sizes
-            n = kc.EDGE_SIZES[(i // 3) % len(kc.EDGE_SIZES)]
-            it = 1 + (i // 3) % 4
-            offs = kc.edge_offsets(rng, n, it, n * nb)
         kicks.append(("k%d" % i, rng.choice("xy"), n, nb, it, offs))
+    # aimed at the case splits of the generated updateSM body (Proofs/UpdateSMGenP.v): integer part of n/2+offset exactly at
+    # the guard / stencil / table boundaries, negative beyond -n/2; odd and even sizes; own PRNG (the older streams keep their draws)
+    import random
+    erng = random.Random(ctx.seed * 1000003 + 171)
+    for i in range(5 if quick else 70):
+        n = kc.EDGE_SIZES[i % len(kc.EDGE_SIZES)]
+        it = 1 + i % 4
+        nb = erng.choice([1, 1, 2])
+        kicks.append(("ke%d" % i, erng.choice("xy"), n, nb, it, kc.edge_offsets(erng, n, it, n * nb)))
     for (cid, d, n, nb, it, offs) in kicks:
         mtext.append("kick %s %d %d %d %s\n" % (cid, n, nb, it, " ".join(qtok(Fraction(o)) for o in offs)))
     # --- impedance sum, tracks
